@@ -262,7 +262,9 @@ impl<'ast, 'arena> ProgramFacts<'ast, 'arena> {
         }
         self.locals.push(LocalInfo { name, owner, declaring_scope, decl_span, decl_stmt, kind });
         self.scope_locals[declaring_scope.0 as usize].push(id);
-        function.locals_len += 1;
+        // Locals of nested functions are numbered in between this function's own, so the
+        // range has to span from its first to its latest local instead of counting them.
+        function.locals_len = id.0 - function.locals_start + 1;
         id
     }
 
@@ -424,7 +426,8 @@ impl<'ast, 'arena> ProgramFacts<'ast, 'arena> {
             .map(|idx| self.user_calls[idx].callee)
     }
 
-    /// Returns the local-id range owned by a function.
+    /// Returns the smallest local-id range that covers every local owned by a function
+    /// (it also covers the locals of functions nested between them).
     #[must_use]
     pub fn local_range(&self, function: FunctionId) -> Range<u32> {
         let info = &self.functions[function.0 as usize];
